@@ -374,8 +374,10 @@ impl Space {
     fn run_map(&self, idx: u64, acc: &mut Acc) {
         let m = &self.maps[idx as usize];
         let mut refm: BTreeMap<String, V> = BTreeMap::new();
+        // the value of the second entry is null: a key stored with a null value is still present
+        let val_of = |vid: usize| if vid == 1 { V::Null } else { V::Int(10 + vid as i64) };
         for (k, vid) in m {
-            refm.insert(KEYS[*k].to_string(), V::Int(10 + *vid as i64));
+            refm.insert(KEYS[*k].to_string(), val_of(*vid));
         }
         // forms: which entries have a variable value / a variable key
         // 0 = all constant; 1..=n = value of entry j-1 is a variable; n+1 = all values variable;
@@ -389,7 +391,7 @@ impl Space {
             } else {
                 let mut parts = Vec::new();
                 for (j, (k, vid)) in m.iter().enumerate() {
-                    let val = V::Int(10 + *vid as i64);
+                    let val = val_of(*vid);
                     let vs = if form == j + 1 || form == n + 1 {
                         let name = format!("v{}", j);
                         binds.push((name.clone(), val));
@@ -449,6 +451,13 @@ impl Space {
                     let src = format!("{}.{}", ms, key);
                     let got = run_src(&src, &binds);
                     report(acc, &format!("map-field {}", fname), &src, &binds, &w, &got);
+                    // a bound variable spelled like the field must not be confused with the selector
+                    let mut b3 = binds.clone();
+                    for f in ["a", "b", "size", "zz"] {
+                        b3.push((f.to_string(), V::s(if f == "a" { "b" } else { "a" })));
+                    }
+                    let got = run_src(&src, &b3);
+                    report(acc, &format!("map-field {} with-a-variable-named-like-the-field", fname), &src, &b3, &w, &got);
                 }
             }
             // non-string keys: never present
